@@ -5,6 +5,7 @@ import itertools
 import numpy as np
 from hypothesis import strategies as st
 
+from vlib.gen import cells as gc
 from vlib.case import Outcome, call, exc_key
 from vlib.gen import materials as gm
 
@@ -45,7 +46,10 @@ def pairs():
 @st.composite
 def draws(draw, item):
     return {"item": item, "la": draw(st.integers(3, 5)), "lb": draw(st.integers(3, 5)), "size": draw(st.integers(4, 5)), "pbcz": draw(st.booleans()),
-            "noise": draw(st.sampled_from([0.0, 0.03])), "contact": draw(st.sampled_from([False, True])), "gapfrac": draw(st.sampled_from([1.0, 0.0, 0.5])), "registry": [draw(st.sampled_from([0.0, 0.5])), draw(st.sampled_from([0.0, 0.5]))], "perm": draw(gm.seeds), "noise_seed": draw(gm.seeds), "sbc_seed": draw(st.integers(0, 10 ** 6))}
+            "noise": draw(st.sampled_from([0.0, 0.03])), "contact": draw(st.sampled_from([False, True])), "gapfrac": draw(st.sampled_from([1.0, 0.0, 0.5])), "registry": [draw(st.sampled_from([0.0, 0.5])), draw(st.sampled_from([0.0, 0.5]))], "perm": draw(gm.seeds), "noise_seed": draw(gm.seeds), "sbc_seed": draw(st.integers(0, 10 ** 6)),
+            # where the stack sits relative to its cell (and how the cell is oriented) is not part of the crystal: rigid motion of
+            # cell + atoms, and a translation of the atoms alone (a quarter of them far: the stack then lies outside its cell)
+            "rigid": draw(st.one_of(st.none(), gm.presentations(permute=False)))}
 
 
 def items(tier):
@@ -147,6 +151,12 @@ def run_case(desc):
         r = np.random.RandomState(desc["noise_seed"])
         d = r.normal(size=(n, 3)); d /= np.linalg.norm(d, axis=1)[:, None]
         s2.set_positions(s2.get_positions() + d * desc["noise"] * r.uniform(0, 1, (n, 1)))
+    if desc.get("rigid"):
+        rg = desc["rigid"]
+        Q = gc.quat_to_rot(rg["quat"])
+        s2.set_cell(np.asarray(s2.get_cell()) @ Q.T, scale_atoms=False)
+        s2.set_positions(s2.get_positions() @ Q.T + np.array(rg["trans"], float))
+        out.cls("rigid:far" if np.abs(rg["trans"]).max() > 5 else "rigid:near")
     perm = np.random.RandomState(desc["perm"]).permutation(n)
     s2 = s2[perm]
     setA = {int(i) for i in range(n) if perm[i] < nA}
